@@ -559,6 +559,7 @@ func checkWire(c *core.Check, which string) {
 	info := map[string][]string{}
 	lastRespond := map[string]driver.AVal{}
 	nCalls := 0
+	distinctCalls := map[string]bool{}
 	for _, raw := range evs {
 		var e map[string]any
 		json.Unmarshal(raw, &e)
@@ -581,7 +582,13 @@ func checkWire(c *core.Check, which string) {
 			add(cfgOf[kept[int(e["group"].(float64))].Pkg])
 		case "Call":
 			nCalls++
-			add(map[string]any{"ev": "Call", "case": cid, "op": e["op"], "sent": tlaVal(av("sent")), "inject": e["inject"]})
+			sent := av("sent")
+			add(map[string]any{"ev": "Call", "case": cid, "op": e["op"], "sent": tlaVal(sent), "inject": e["inject"]})
+			// non-trivial: the request carries at least one parameter group or a body; distinct by (operation, value sent, injected status)
+			if len(sent.F) > 0 {
+				bs, _ := json.Marshal(sent)
+				distinctCalls[fmt.Sprintf("%v|%v|%s", e["op"], e["inject"], bs)] = true
+			}
 		case "Wire":
 			add(wireEvent(e, m.w, m.base))
 		case "Parse":
@@ -669,7 +676,11 @@ func checkWire(c *core.Check, which string) {
 	c.Add("traces_validated_against_impl", int64(nCalls))
 	c.Add("evaluations", int64(nCalls))
 	c.Add("programs", int64(len(sc.Pkgs)))
-	c.Add("distinct_nontrivial", int64(jr.Nontriv))
+	if len(distinctCalls) < jr.Nontriv {
+		c.Add("distinct_nontrivial", int64(len(distinctCalls)))
+	} else {
+		c.Add("distinct_nontrivial", int64(jr.Nontriv))
+	}
 	mine, other := 0, 0
 	byEvent := map[string]int{}
 	atOf := map[string][]string{"c09": {"Wire", "Parse"}, "c10": {"Return", "ServerPanic"}, "c02": {"ServerDone", "Respond"}}
@@ -700,7 +711,7 @@ func checkWire(c *core.Check, which string) {
 	c.Cov["rejected_for_other_wire_properties"] = other
 	c.Cov["rejected_events_by_kind_and_finding"] = byEvent
 	c.Cov["exhaustive"] = false
-	c.Cov["rule"] = "seeded operations (0-2 typed path parameters, 0-3 query parameters incl. arrays, 0-2 header parameters, JSON / raw / no body, 1-4 responses from {200,201,404,default} inline / component / alias with typed required and optional headers and JSON / raw / no body) are pre-flighted and packed with the client on under rotating base-path forms; each operation is called through the generated Client with seeded boundary values (domain of §11), the injected HTTPClient records the wire request and serves it through API.ServeHTTP, the handler parses and answers with a seeded value of a seeded documented response type; undocumented statuses are injected; TLC (Trace_Wire) judges wire validity and parsed = sent (C09), the write as documented (C02), returned = produced and the default/error rule (C10); non-trivial = every completed call"
+	c.Cov["rule"] = "seeded operations (0-2 typed path parameters, 0-3 query parameters incl. arrays, 0-2 header parameters, JSON / raw / no body, 1-4 responses from {200,201,404,default} inline / component / alias with typed required and optional headers and JSON / raw / no body) are pre-flighted and packed with the client on under rotating base-path forms; each operation is called through the generated Client with seeded boundary values (domain of §11), the injected HTTPClient records the wire request and serves it through API.ServeHTTP, the handler parses and answers with a seeded value of a seeded documented response type; undocumented statuses are injected; TLC (Trace_Wire) judges wire validity and parsed = sent (C09), the write as documented (C02), returned = produced and the default/error rule (C10); non-trivial = completed calls that carry at least one parameter group or a body, distinct by (operation, value sent, injected status)"
 	c.Cov["bounds"] = map[string]any{"operations": nOps, "values_per_operation": nSeeds, "injected_statuses": []int{200, 201, 202, 302, 404, 418, 500}}
 	for cid, ev := range info {
 		if len(ev) > 4 {
